@@ -74,4 +74,14 @@ def discharge(hyps, goal, timeout_s=10, use_external=True):
             return Result("unsat", "z3-5.1(seed7)", time.time() - t0)
         if r2 == z3.sat:
             return Result("sat", "z3-5.1(seed7)", time.time() - t0, model=s2.model())
+        # the budgets are wall-clock: on a busy machine a query that needs a few CPU seconds can run out of them, so a
+        # timeout (not a genuine 'incomplete') gets one last, four times longer attempt before the verdict is 'undecided'
+        if "timeout" in detail or "canceled" in detail or "interrupted" in detail:
+            s3 = negation_query(hyps, goal)
+            s3.set("timeout", int(timeout_s * 4000))
+            r3 = s3.check()
+            if r3 == z3.unsat:
+                return Result("unsat", "z3-5.1(long)", time.time() - t0)
+            if r3 == z3.sat:
+                return Result("sat", "z3-5.1(long)", time.time() - t0, model=s3.model())
     return Result("unknown", "all", time.time() - t0, detail=detail)
